@@ -76,7 +76,8 @@ macro_rules! wire_call {
         let cfg = class_cfg($class, ALL_VERSIONS);
         let mut server = build_server(&cfg, SymClock { now: tt::ts_from_raw(now) }, info, zero_keyset());
         let mut stats = RecStats::new();
-        let mut send_buf = [0u8; BUF];
+        // longer than --max-field-sensitivity-array-size: the serialiser writes at positions symex cannot fold
+        let mut send_buf = [0u8; 256];
         let act = server.handle(client, tt::ts_from_raw(recv), &$buf[..$length], &mut send_buf[..$length], &mut stats);
         let out = outcome(&act);
         let vn = ($buf[0] >> 3) & 7;
